@@ -99,7 +99,7 @@ structure Main (cs : List Chunk) (v : Variant) (c : Cfg) : Prop where
   names : notCollected c.prog = true → ∀ t, c.fs.temp = some t → ∀ j, t.get (.cmeta j) ≠ none → ∃ w ∈ c.workers, w.i = j
   mdOpen : hr c.prog ≤ 18 → c.md.ended = false ∧ c.md.exc = false
   sj : v = .serial → SubmitJoin c.prog
-  noApp : v = .forked → pendApp c.prog = []
+  noApp : v = .forked → pendApp c.prog = [] ∧ Item.markUnreg ∉ c.prog
   noRead : v ≠ .forked → readIdx c.prog = []
   nocmeta : v ≠ .forked → ∀ t, c.fs.temp = some t → ∀ j, t.get (.cmeta j) = none
   unl : UnlinkOK c.prog
@@ -107,18 +107,19 @@ structure Main (cs : List Chunk) (v : Variant) (c : Cfg) : Prop where
   lateItems : (readIdx c.prog ≠ [] ∨ ∃ i, Item.op (.unlink .temp (.cmeta i)) ∈ c.prog) →
     20 ≤ hr c.prog ∧ notCollected c.prog = false
 
-/-- side conditions on the chunk writers: the invariant is about the serial and executor variants (the forked variant
-as coded is not crash safe, D35), whose chunk writes never touch the metadata file; writes nobody waits for only exist
-once the handler has taken over -/
+/-- side conditions on the chunk writers: on the main path of the serial and executor variants the chunk writes never
+touch the metadata file (those of a forked copy do: first-chunk flush); a forked saver never has a write that is "not yet
+registered" (`save_from` does not drive it), so the writes nobody waits for — which only exist once the handler has taken
+over — are always writes of the executor variant and leave the metadata file alone -/
 structure Side (v : Variant) (c : Cfg) : Prop where
-  nf : v ≠ .forked ∧ c.spec.variant ≠ .forked
-  wmd : ∀ w ∈ c.workers, ∀ o ∈ w.ops, mdFree o = true
+  wmd : v ≠ .forked → c.handling = false → ∀ w ∈ c.workers, ∀ o ∈ w.ops, mdFree o = true
+  nmu : v = .forked → c.handling = false → c.unreg = false
   orphOk : ∀ w ∈ c.orphans, ∀ o ∈ w.ops, tempOp o = true ∧ mdFree o = true
   orphMode : c.orphans ≠ [] → c.handling = true
 
 theorem Side.congr {v : Variant} {c c' : Cfg} (h : Side v c) (hw : c'.workers = c.workers) (ho : c'.orphans = c.orphans)
-    (hh : c'.handling = c.handling) (hs : c'.spec = c.spec) : Side v c' :=
-  ⟨by rw [hs]; exact h.nf, by rw [hw]; exact h.wmd, by rw [ho]; exact h.orphOk, by rw [ho, hh]; exact h.orphMode⟩
+    (hh : c'.handling = c.handling) (_hs : c'.spec = c.spec) (hu : c'.unreg = c.unreg) : Side v c' :=
+  ⟨by rw [hw, hh]; exact h.wmd, by rw [hh, hu]; exact h.nmu, by rw [ho]; exact h.orphOk, by rw [ho, hh]; exact h.orphMode⟩
 
 /-- the invariant of the saver machine running the current protocol for chunk list `cs` under variant `v` -/
 structure Inv (cs : List Chunk) (v : Variant) (c : Cfg) : Prop where
@@ -210,7 +211,7 @@ theorem inv_init_low {cs : List Chunk} {v : Variant} {c : Cfg} (h : Inv cs v c) 
   · intro h12 _; simp at h12; omega
   · intro h19 _; simp at h19; omega
   · intro h25; simp at h25; omega
-  · exact h.side.congr rfl rfl rfl rfl
+  · exact h.side.congr rfl rfl rfl rfl rfl
 
 theorem shape_nil : Shape [] := by
   refine ⟨List.Pairwise.nil, by simp, ?_⟩
@@ -237,7 +238,7 @@ theorem inv_terminal {cs : List Chunk} {v : Variant} {c : Cfg} (h : Inv cs v c) 
   · intro _ hk; simp at hk
   · intro _ hk; simp at hk
   · intro hk; simp at hk
-  · exact h.side.congr rfl rfl rfl rfl
+  · exact h.side.congr rfl rfl rfl rfl rfl
 
 theorem hr_handlerItems (hs : HandlerSpec) : 16 ≤ hr (handlerItems hs) ∧ hr (handlerItems hs) ≤ 17 := by
   unfold handlerItems
@@ -249,12 +250,12 @@ theorem hr_handlerItems (hs : HandlerSpec) : 16 ≤ hr (handlerItems hs) ∧ hr 
 
 /-- the processor's exception handler takes over; a chunk write that had not reached `pending` is left to itself -/
 theorem inv_handler {cs : List Chunk} {v : Variant} {c : Cfg} (h : Inv cs v c) (ht : c.fs.temp ≠ none) (f b : Bool)
-    (ws' os' : List Worker) (hws : ∀ w ∈ ws', w ∈ c.workers) (hos : ∀ w ∈ os', w ∈ c.orphans ∨ w ∈ c.workers) :
+    (ws' os' : List Worker) (hws : ∀ w ∈ ws', w ∈ c.workers) (hos : ∀ w ∈ os', w ∈ c.orphans ∨ (w ∈ c.workers ∧ ∀ o ∈ w.ops, mdFree o = true)) :
     Inv cs v { c with prog := handlerItems c.spec, term := true, handling := true, failed := f, unreg := b,
                       workers := ws', orphans := os' } := by
   have hk := hr_handlerItems c.spec
   constructor
-  · exact shape_handlerItems _ h.side.nf.2
+  · exact shape_handlerItems _
   · intro w hw; exact h.wtemp w (hws w hw)
   · intro hk'; simp only at hk'; omega
   · intro hk'; simp only at hk'; omega
@@ -269,11 +270,11 @@ theorem inv_handler {cs : List Chunk} {v : Variant} {c : Cfg} (h : Inv cs v c) (
   · intro _ _; exact ht
   · intro _ _; rfl
   · intro h25; simp only at h25; omega
-  · refine ⟨h.side.nf, fun w hw => h.side.wmd w (hws w hw), ?_, fun _ => rfl⟩
+  · refine ⟨fun _ hh => by simp at hh, fun _ hh => by simp at hh, ?_, fun _ => rfl⟩
     intro w hw o ho
     rcases hos w hw with h1 | h1
     · exact h.side.orphOk w h1 o ho
-    · exact ⟨h.wtemp w h1 o ho, h.side.wmd w h1 o ho⟩
+    · exact ⟨h.wtemp w h1.1 o ho, h1.2 o ho⟩
 
 theorem inv_failedFlag {cs : List Chunk} {v : Variant} {c : Cfg} (h : Inv cs v c) (f : Bool) :
     Inv cs v { c with failed := f } := by
@@ -296,7 +297,7 @@ theorem inv_failedFlag {cs : List Chunk} {v : Variant} {c : Cfg} (h : Inv cs v c
   · exact h.tempSome
   · exact h.termLate
   · exact h.renamed
-  · exact h.side.congr rfl rfl rfl rfl
+  · exact h.side.congr rfl rfl rfl rfl rfl
 
 /-- the saver thread gets an exception while it still has something to do -/
 theorem inv_fail {cs : List Chunk} {v : Variant} {c : Cfg} (h : Inv cs v c) (hne : c.prog ≠ []) : Inv cs v c.fail := by
@@ -323,7 +324,16 @@ theorem inv_fail {cs : List Chunk} {v : Variant} {c : Cfg} (h : Inv cs v c) (hne
       · omega
     have hts := h.tempSome (by omega) (by omega)
     split
-    · have := inv_handler h hts c.failed false c.workers.dropLast (c.orphans ++ c.workers.getLast?.toList)
+    · rename_i hun
+      -- the saver is not inside a handler (its failures are not terminal), so it is not a forked one and its writers
+      -- leave the metadata file alone
+      have hh : c.handling = false := by
+        cases hh : c.handling with
+        | false => rfl
+        | true => have := h.handTerm hh; rw [hterm.1] at this; cases this
+      have hnf : v ≠ .forked := by
+        intro hv; have := h.side.nmu hv hh; rw [this] at hun; cases hun
+      have := inv_handler h hts c.failed false c.workers.dropLast (c.orphans ++ c.workers.getLast?.toList)
         (fun w hw => (List.dropLast_sublist _).subset hw)
         (fun w hw => by
           rcases List.mem_append.mp hw with h1 | h1
@@ -331,7 +341,9 @@ theorem inv_fail {cs : List Chunk} {v : Variant} {c : Cfg} (h : Inv cs v c) (hne
           · right
             cases hl : c.workers.getLast? with
             | none => simp [hl] at h1
-            | some a => simp [hl] at h1; subst h1; exact List.mem_of_getLast? hl)
+            | some a =>
+              simp [hl] at h1; subst h1
+              exact ⟨List.mem_of_getLast? hl, h.side.wmd hnf hh _ (List.mem_of_getLast? hl)⟩)
       simpa using this
     · have := inv_handler h hts c.failed c.unreg c.workers c.orphans (fun _ hw => hw) (fun _ hw => Or.inl hw)
       simpa using this
@@ -596,7 +608,7 @@ theorem inv_init_mid {cs : List Chunk} {v : Variant} {c : Cfg} {x : Item} {rest 
     simp [ht]
   · intro h19 _; simp only at h19; omega
   · intro h25; simp only at h25; omega
-  · exact h.side.congr rfl rfl rfl rfl
+  · exact h.side.congr rfl rfl rfl rfl rfl
 
 theorem rank_11_14_cases {x : Item} (h : 11 ≤ rank x) (h' : rank x ≤ 14) :
     x = .op (.mkdir .temp) ∨ x = .flushOpen .init ∨ x = .flushWrite .init ∨ x = .flushClose .init := by
@@ -839,8 +851,17 @@ theorem pendApp_forked_chunksItems : ∀ (cs : List Chunk) (s : Nat), pendApp (c
   | nil => intro s; simp [chunksItems, pendApp]
   | cons c rest ih => intro s; simp [chunksItems, chunkItems, pendApp, ih]
 
+theorem markUnreg_not_forked_chunksItems : ∀ (cs : List Chunk) (s : Nat), Item.markUnreg ∉ chunksItems .forked true s cs := by
+  intro cs
+  induction cs with
+  | nil => intro s; simp [chunksItems]
+  | cons c rest ih => intro s; simp [chunksItems, chunkItems, ih]
+
+theorem markUnreg_not_forked_main (cs : List Chunk) : Item.markUnreg ∉ mainItems .forked cs ++ closeItems := by
+  simp [mainItems, markUnreg_not_forked_chunksItems, closeItems, flushItems]
+
 theorem pendApp_forked_main (cs : List Chunk) : pendApp (mainItems .forked cs ++ closeItems) = [] := by
-  simp [mainItems, pendApp_append, pendApp_forked_chunksItems, pendApp_closeItems]
+  simp [mainItems, pendApp_append, pendApp_forked_chunksItems, pendApp, closeItems, flushItems]
 
 theorem unlinkOK_of_no_unlink {p : List Item} (h : ∀ i, Item.op (.unlink .temp (.cmeta i)) ∉ p) : UnlinkOK p := by
   intro pre post i he
@@ -871,10 +892,10 @@ theorem split_unique {α : Type} {a b pre post : List α} {w : α} (ha : w ∉ a
       obtain ⟨h1, h2⟩ := ih (fun hm => ha (by simp [hm])) he.2
       exact ⟨by rw [h1, he.1], h2⟩
 
-theorem waitAll_main {v : Variant} (hv : v = .executor) (cs : List Chunk) :
+theorem waitAll_main {v : Variant} (hv : v = .executor ∨ v = .forked) (cs : List Chunk) :
     Item.waitAll ∈ mainItems v cs ++ closeItems ∧
       ∀ pre post, mainItems v cs ++ closeItems = pre ++ Item.waitAll :: post → submitIdx post = [] := by
-  have hm : mainItems v cs = chunksItems v true 0 cs ++ [.waitAll] := by simp [mainItems, hv]
+  have hm : mainItems v cs = chunksItems v true 0 cs ++ [.waitAll] := by rcases hv with rfl | rfl <;> simp [mainItems]
   refine ⟨by simp [hm], ?_⟩
   intro pre post he
   rw [hm, List.append_assoc] at he
@@ -888,16 +909,17 @@ theorem waitAll_main {v : Variant} (hv : v = .executor) (cs : List Chunk) :
     | cons c rest ih =>
       simp only [chunksItems, List.mem_append] at hin
       rcases hin with hin | hin
-      · subst hv
-        simp only [chunkItems, flushItems] at hin
-        split at hin <;> simp at hin
+      · rcases hv with rfl | rfl
+        · simp only [chunkItems, flushItems] at hin
+          split at hin <;> simp at hin
+        · simp [chunkItems] at hin
       · exact ih _ hin
   have hnc : Item.waitAll ∉ closeItems := by simp [closeItems, flushItems]
   obtain ⟨_, hpost⟩ := split_unique hnot hnc (by simpa using he)
   rw [hpost, submitIdx_closeItems]
 
 /-- the main-path facts at the moment `FileSaver.__init__` returns -/
-theorem main_start {cs : List Chunk} {v : Variant} {c : Cfg} (hnf : v ≠ .forked) (hprog : c.prog = mainItems v cs ++ closeItems)
+theorem main_start {cs : List Chunk} {v : Variant} {c : Cfg} (hprog : c.prog = mainItems v cs ++ closeItems)
     (hmd : c.md = ⟨[], false, false⟩) (hw : c.workers = [])
     (htemp : ∃ t, c.fs.temp = some t ∧ ∀ x, x ≠ .md → t.get x = none) : Main cs v c := by
   constructor
@@ -915,8 +937,8 @@ theorem main_start {cs : List Chunk} {v : Variant} {c : Cfg} (hnf : v ≠ .forke
   · intro w hwm; simp [hw] at hwm
   · cases v with
     | serial => simp [Awaited, hw]
-    | executor => simp only [Awaited, hw]; left; rw [hprog]; exact waitAll_main rfl cs
-    | forked => exact absurd rfl hnf
+    | executor => simp only [Awaited, hw]; left; rw [hprog]; exact waitAll_main (Or.inl rfl) cs
+    | forked => simp only [Awaited, hw]; left; rw [hprog]; exact waitAll_main (Or.inr rfl) cs
   · rw [hprog, readIdx_main]; simp
   · intro _ t ht j hj
     obtain ⟨t', ht', hnone⟩ := htemp
@@ -924,7 +946,7 @@ theorem main_start {cs : List Chunk} {v : Variant} {c : Cfg} (hnf : v ≠ .forke
     exact absurd (hnone _ (by simp)) hj
   · intro _; simp [hmd]
   · intro hv; subst hv; rw [hprog]; exact submitJoin_main cs
-  · intro hv; subst hv; rw [hprog]; exact pendApp_forked_main cs
+  · intro hv; subst hv; rw [hprog]; exact ⟨pendApp_forked_main cs, markUnreg_not_forked_main cs⟩
   · intro _; rw [hprog, readIdx_main]
   · intro _ t ht j
     obtain ⟨t', ht', hnone⟩ := htemp
@@ -1009,13 +1031,13 @@ theorem inv_sav_armed {cs : List Chunk} {v : Variant} {c c' : Cfg} (h : Inv cs v
         have : hr rest = rank y := by rw [he]; simp
         have := hpre y (by simp)
         omega
-    refine inv_late hsx.tail (by simp only; omega) (by simp [hw]) ?_ ?_ ?_ h.safe ?_ ?_ ?_ ?_ ?_ (h.side.congr rfl rfl rfl rfl)
+    refine inv_late hsx.tail (by simp only; omega) (by simp [hw]) ?_ ?_ ?_ h.safe ?_ ?_ ?_ ?_ ?_ (h.side.congr rfl rfl rfl rfl rfl)
     · intro h18 _; simp only at h18; omega
     · intro h19 _; simp only at h19; omega
     · intro h23 _; simp only at h23; omega
     · intro hh; simp only at hh; rw [hhand] at hh; simp at hh
     · intro _ _ _
-      exact main_start (c := { c with prog := rest, term := false }) h.side.nf.1 hrest hmd hw
+      exact main_start (c := { c with prog := rest, term := false }) hrest hmd hw
         (h.initTemp (by rw [hp]; simp [rank]) (by rw [hp]; simp [rank]))
     · intro _
       obtain ⟨t, ht, _⟩ := h.initTemp (by rw [hp]; simp [rank]) (by rw [hp]; simp [rank])
